@@ -99,8 +99,13 @@ class LastPos:
 
   @classmethod
   def _from_string(cls, string, valid=False):
-    if string[-1] == "$":
-      return cls(int(string[:-1]), valid=valid)
+    if string.endswith("$"):
+      try:
+        v = int(string[:-1])
+      except:
+        raise gfapy.FormatError(
+            "LastPos value has a wrong format: {}".format(string))
+      return cls(v, valid=valid)
     else:
       try:
         v = int(string)
